@@ -52,7 +52,8 @@ def lookup_loops(F):
     want2 = ("call", XF + "PathsAreEqual", None, (("NAME",), ("call", ARC + "::GetName", ("this",), (("I",),))))
     inst = ARC + "::GetIndex#predicate"
     req = "the lookup predicate is XFile::PathsAreEqual(GetName(i), name) over 0 .. GetCount()"
-    rng_ok = s2[0] == ("const", 0) and s2[1] == ("op", "<", ("I",), ("call", ARC + "::GetCount", ("this",), ()))
+    rng_ok = s2[0] == ("const", 0) and s2[1] in (("op", "<", ("I",), ("call", ARC + "::GetCount", ("this",), ())),
+                                                 ("op", "<", ("I",), ("mem", ("this",), "m_Count")))
     if pred in (want, want2) and rng_ok:
         out.append(ok("R-SIB", inst, f2.loc(i2["id"]), f2.qn, req, fmt_term(pred)))
     else:
@@ -251,10 +252,11 @@ def containing_archive(F, S):
     hit = 0
     for r in returns(fn):
         t = fn.term(r["value"])
-        if t[0] == "call" and t[1].endswith("GetArchiveFilename"):
+        is_name = (t[0] == "call" and t[1].endswith("GetArchiveFilename")) or (t[0] == "mem" and t[2] == "m_ArchiveFilename")
+        if is_name:
             hit += 1
             site = final_site_facts(eng, fn, r["id"]) or set()
-            arch = t[2]
+            arch = t[2] if t[0] == "call" else t[1]
             good = any(f[0] == "true" and f[1] == ("call", ARC + "::Contains", arch, (P(fn, 0),)) for f in site)
             inst = RM + "::FindContainingArchivePath#contains"
             req = "the archive whose name is reported is the one whose Contains(name) held"
